@@ -371,7 +371,7 @@ def bumpLoop (extra : Nat) : Nat → List BOut → Nat × List BOut
   | rem, (v, true) :: rest =>
     if rem = 0 then (0, (v, true) :: rest)
     else if v > rem * 2 then
-      let r := bumpLoop extra 0 rest; (r.1, (v - extra, true) :: r.2)
+      let r := bumpLoop extra 0 rest; (r.1, (v - rem, true) :: r.2)
     else if v < rem then
       bumpLoop extra (rem - v) rest
     else
